@@ -445,9 +445,14 @@ def whole_file_read(raw):
     `f.read(None)` / `path.read_bytes()`; (False, why) for a read that is capped (`f.read(n)`): its length is min(file size, n), so
     a guard on it says nothing about the file; (None, why) for anything else."""
     v = strip(raw)
+    if v[0] == 'slice':
+        return False, 'the firmware buffer is a slice of what was read ({}): the length that is guarded is not the length of the file'.format(show(v)[:60])
     if v[0] != 'mcall':
         return None, 'the firmware buffer is not the result of a read call: {}'.format(show(v)[:60])
     meth, args, kwargs = v[2], v[3], v[4] if len(v) > 4 else ()
+    if meth in ('rstrip', 'strip', 'lstrip', 'removesuffix', 'removeprefix') and strip(v[1])[0] == 'mcall' and strip(v[1])[2] in ('read', 'read_bytes'):
+        return False, ('the firmware is {}()-ed after reading and the size guard looks at what is left: a file larger than the flash whose tail is stripped '
+                       'is accepted, although it is the file that must fit').format(meth)
     if meth == 'read_bytes' and not args:
         return True, ''
     if meth == 'read':
